@@ -54,6 +54,7 @@ CORR_ONLY = ["the square root of Stationary_Values (fix 51ca844) is a parameter 
              "8 eps (2-D) x max|table| x |prefactor| (rounding of the evaluation itself); Integrate at 16 eps x sum of |terms| relative to the left "
              "abscissa; scaling by Set_Prefactor/Multiply is demanded bit-for-bit (Integrate: for factors +-2^k, otherwise 128 eps x scale)"]
 ASSUMPTIONS = ["NaN arguments are outside the statement (every `<` guard lets NaN pass): not generated",
+               "joint-scale tables (spacing 2^+-200..330) keep the ordinates and the coefficients y/h^3 inside the normal double range (IEEE overflow/underflow is outside the model)",
                "repair C08-2 (audit2 P2/P7) is applied as 441bef8 and the strict Integrate clauses are on (scale proportional to the width, bit-exact scaling from the unit prefactor, bounds at 16 eps x max|curve| x length, joint-scale tables); for a rehearsal against older trees: before it the Integrate clauses were judged at the scale of the stem-function difference as coded (16 eps x sum of |terms at the limits|, which does not shrink with the width of the range: vacuous for ranges much shorter than their interval), Integrate scales bit-for-bit only for factors +-2^k, and the joint-scale tables (spacing 1e-100..1e100, where pow(t,4) under/overflows) are not generated; LP_ASSUME_FIXED=C08-2 switches to the strict clauses (scale proportional to the width, bit-exact scaling from the unit prefactor, bounds at 16 eps x max|curve| x length, joint-scale tables)",
                "std::min_element/std::max_element/std::min/std::max return an extremal element",
                "unit factors in the generated requests are powers of two (exact in double), so model and code see the same table",
@@ -276,9 +277,24 @@ ZONE_CELLS = ("before", "straddle", "behind", "domain")
 
 def zone_cells(rng, meta, tb):
     """limit pairs in every ordering relative to (end knot, stationary abscissa x*, zone edge), either prefactor sign"""
-    xs, ys, side = tb
+    xs, ys, side0 = tb
     n = len(xs)
     R = []
+    # limits in OPPOSITE zones in one call: the candidates are the stationary values of BOTH continued edge cubics
+    eL, eR = xs[0] - 0.0095 * (xs[1] - xs[0]), xs[-1] + 0.0095 * (xs[-1] - xs[-2])
+    sL, sR = stationary_points(xs, ys, 0, eL, xs[0]), stationary_points(xs, ys, n - 2, xs[-1], eR)
+    for rep in range(2):
+        def zpick(knot, edge, st):
+            if len(st) == 1 and rng.random() < 0.75:   # beyond the turning point
+                return st[0] + rng.uniform(0.15, 0.95) * (edge - st[0])
+            return knot + rng.uniform(0.1, 0.95) * ((st[0] if len(st) == 1 else edge) - knot)
+        x1, x2 = zpick(xs[0], eL, sL), zpick(xs[-1], eR, sR)
+        for sign in ("pos", "neg"):
+            P, p = (([], 1.0) if rep == 0 else (["X %s" % hx(2.5)], 2.5)) if sign == "pos" else ((["P %s" % hx(-3.0)], -3.0) if rep == 0 else (["P %s" % hx(2.0), "X %s" % hx(-1.5)], -3.0))
+            rq = build_ext(rng, meta, xs, ys, -1.0, -1.0, xs, ys, P, p, x1, x2, fam="zone")
+            meta[rq]["cell"] = (side0, "opposite", sign)
+            R.append(rq)
+    side = "L" if side0 == "B" else side0
     if side == "L":
         knot, edge, j = xs[0], xs[0] - 0.0095 * (xs[1] - xs[0]), 0
         st = stationary_points(xs, ys, j, edge, knot)
@@ -290,7 +306,7 @@ def zone_cells(rng, meta, tb):
         inner = T.point(rng, xs, rng.randint(0, n - 2))
         zl = knot + rng.uniform(0.3, 1.0) * (edge - knot)
         P, p = pref_ops(rng)
-        return [build_ext(rng, meta, xs, ys, -1.0, -1.0, xs, ys, P, p, min(inner, zl), max(inner, zl), fam="zone")]
+        return R + [build_ext(rng, meta, xs, ys, -1.0, -1.0, xs, ys, P, p, min(inner, zl), max(inner, zl), fam="zone")]
     xstar = st[0]
     between = lambda u, v, f: u + f * (v - u)
     for cell in ZONE_CELLS:
@@ -310,7 +326,7 @@ def zone_cells(rng, meta, tb):
             else:
                 P, p = (["P %s" % hx(-3.0)], -3.0) if c < 0.5 else (["X %s" % hx(-0.5)], -0.5) if c < 0.8 else (["P %s" % hx(2.0), "X %s" % hx(-1.5)], -3.0)
             rq = build_ext(rng, meta, xs, ys, -1.0, -1.0, xs, ys, P, p, x1, x2, fam="zone")
-            meta[rq]["cell"] = (side, cell, sign)
+            meta[rq]["cell"] = (side0, cell, sign)
             R.append(rq)
     return R
 
@@ -377,9 +393,17 @@ def gen_short(rng, tier, meta):
             x0 = _C1.gen_xs(rng, n, rng.choice(["jitter", "uniform2"]))
             y0 = _C1.gen_ys(rng, x0, rng.choice(["smooth", "monotone", "signchange", "plateau"]))
             Ex = rng.choice([-1, 1]) * rng.randint(200, 330)      # spacings 1e-100 .. 1e100
-            Ey = rng.randint(-40, 40)
+            # the coefficients y/h^3, y/h^2 and the ordinates themselves must stay finite normal doubles (IEEE overflow is
+            # outside the model): Ey inside [-800,800] and within 800 of 3*Ex
+            Ey = rng.randint(max(-800, 3 * Ex - 800), min(800, 3 * Ex + 800))
             xs = [math.ldexp(v, Ex) for v in x0]; ys = [math.ldexp(v, Ey) for v in y0]
-            if not all(math.isfinite(v) for v in xs + ys) or len(set(xs)) < n:
+            hmin = min(b - a for a, b in zip(xs, xs[1:])); hmax = max(b - a for a, b in zip(xs, xs[1:]))
+            ymax = max(abs(v) for v in ys) or 1.0
+            ok = all(math.isfinite(v) for v in xs + ys) and len(set(xs)) == n and hmin > 0
+            if ok:
+                lg = math.log2(ymax) - 3 * math.log2(hmin)
+                ok = lg < 960 and math.log2(ymax) + 3 * math.log2(hmax) < 960 and math.log2(ymax) > -900 and lg > -900
+            if not ok:
                 continue
             tb = (xs, ys, -1.0, -1.0, xs, ys)
             pts = [T.point(rng, xs, rng.randint(0, n - 2)) for _ in range(3)]
